@@ -5,7 +5,14 @@ theorems of Props*.lean apply to each user separately.  The world adds only
   * routing: `on k op` (one user), `all op` (get_user_command / process_io / flush_messages() visit every user),
     `hangup k fin` (the peer of user `k` went away; the same process_io pass serves the write-ready events of the others);
   * the snoop relation (`new_set_snoop`, cleared by `remove_interactive`), kept in the `snoopBy` fields;
-  * tagging: an event belongs to the user that produced it, a `snoop` event to the snooper that receives the text.
+  * tagging: an event belongs to the user that produced it, a `snoop` event to the snooper that receives the text;
+  * re-entrancy: `receive_snoop` is LPC code.  The harness user object carries out one scripted reaction per call
+    (`React`): echo the text to itself, tell another user, destruct a user (also the one being written to), raise an
+    error.  `writeW` is add_message / add_vmessage as seen by the whole world: the single-user call, then - it is the
+    last thing the C functions do - the snooper's reaction, which may call add_message again (`fuel` = number of scripted
+    reactions left + 2, every nested call consumes one).
+Every change of a user's state is a single-user `step` (or an edit of its `snoopBy` field, which is `step _ (.snoopBy _)`);
+`PropsMulti.lean` proves from this that each user's stream is a single-user run and satisfies the oracle.
 -/
 import NV.C14.Model
 
@@ -20,6 +27,9 @@ inductive MOp where
   | snoop (k j : Nat)
   /-- `new_set_snoop (user k, 0)` -/
   | unsnoop (k : Nat)
+  /-- add_message / add_vmessage to user `k` in a case that scripts `receive_snoop` reactions: the call can reach every
+  user, so the state of every user is shown after it -/
+  | writeR (k : Nat) (v : Bool) (data : List Byte)
   deriving Repr
 
 /-- a user slot: `none` until the user connects -/
@@ -67,6 +77,55 @@ def snoopsChain (w : World) (k : Nat) : Nat → Nat → Bool
       | none => false
       | some nxt => snoopsChain w k fuel nxt
 
+/-- world, events, `false` = an LPC error is unwinding to the caller of the outermost add_message -/
+abbrev WR := World × List TEv × Bool
+
+def andThen (r : World × List TEv) (f : World → WR) : WR :=
+  let r2 := f r.1
+  (r2.1, r.2 ++ r2.2.1, r2.2.2)
+
+/-- the user whose `receive_snoop` was called by this add_message (its `snoop` event, tagged with the snooper) -/
+def snoopCall (es : List TEv) : Option Nat :=
+  es.findSome? fun e => match e.2 with
+    | .snoop b _ => some b
+    | _ => none
+
+/-- `"[" + oid + ">" + j + "]\n"` -/
+def tellText (b j : Nat) : List Byte := (s!"[{b}>{j}]\n").toList.map (fun c => UInt8.ofNat c.toNat)
+
+/-- `users ()` contains user `j` (still interactive; NET_DEAD users are still listed) -/
+def interactiveU (w : World) (j : Nat) : Bool := (getU w j).any (fun s => !s.closed)
+
+/-- `receive_snoop (text)` in user `b` (harness/mudlib/c14/user.c): take the next scripted reaction and carry it out;
+`rec` is add_message as seen by the world (one level less of fuel) -/
+def reactStep (rec : World → Nat → Bool → List Byte → WR) (w : World) (b : Nat) (d : List Byte) : WR :=
+  match getU w b with
+  | none => (w, [], true)
+  | some sb =>
+    match sb.react with
+    | [] => (w, [], true)
+    | t :: _ =>
+      andThen (stepAt w b .popReact) fun w2 =>
+        match t with
+        | .nop => (w2, [], true)
+        | .err => (w2, [], false)
+        | .echo => if interactiveU w2 b then rec w2 b false (d.take 2000) else (w2, [], true)
+        | .tell j => if interactiveU w2 j then rec w2 j false (tellText b j) else (w2, [], true)
+        | .dest j => if interactiveU w2 j then (let r := stepAt w2 j .closeQ; (r.1, r.2, true)) else (w2, [], true)
+
+/-- add_message (`v = false`) / add_vmessage to user `k`, with everything the snooper's LPC code does in response -/
+def writeW : Nat → World → Nat → Bool → List Byte → WR
+  | 0, w, _, _, _ => (w, [], false)
+  | fuel + 1, w, k, v, d =>
+    let r := stepAt w k (.writeQ v d)
+    andThen r fun w1 =>
+      match snoopCall r.2 with
+      | none => (w1, [], true)
+      | some b => reactStep (writeW fuel) w1 b d
+
+/-- more than the number of scripted reactions left: every nested add_message consumes one -/
+def fuelOf (w : World) : Nat := w.foldl (fun n o => n + (o.map (fun s => s.react.length)).getD 0) 2
+
 def stepM (w : World) : MOp → World × List TEv
   | .on k op => stepAt w k op
   | .all op => stepEach (fun _ => op) (List.range w.length) w
@@ -87,6 +146,12 @@ def stepM (w : World) : MOp → World × List TEv
     match getU w k with
     | some sk => if sk.closed then (w, []) else (dropSnooper w k, [])
     | none => (w, [])
+  | .writeR k v d =>
+    let r := writeW (fuelOf w) w k v d
+    -- the harness catches the error after the call and prints `lpcerr`, then the state of every user
+    let e : List TEv := if r.2.2 then [] else [(k, Ev.lpcerr)]
+    let sts := stepEach (fun _ => .showSt) (List.range w.length) r.1
+    (sts.1, r.2.1 ++ e ++ sts.2)
 
 def runM : World → List MOp → World × List TEv
   | w, [] => (w, [])
